@@ -1,7 +1,7 @@
 """C20 - concurrent state updates are never lost.
 
 2-3 tasks, each performing one store operation (set, set_state, clear, or an edit_state block that reads, suspends
-at a harness gate and writes), are started at explorer-chosen points on the real InMemoryStateStore /
+at a harness gate and writes - possibly starting a helper task that writes on its own later), are started at explorer-chosen points on the real InMemoryStateStore /
 SqliteStateStore; every interleaving of starts and gate releases is executed on the virtual loop and the final
 state must equal the result of some serial order of the same operations (brute force over all permutations on a
 nested-dict reference, each edit_state block atomic).
@@ -98,6 +98,7 @@ def execute(ex: Execution, backend: str, ops: list[Any], initial: dict[str, Any]
         store = make_store(backend, initial, typed)
         gates: dict[str, asyncio.Future] = {}
         tasks: dict[int, asyncio.Task] = {}
+        children: list[asyncio.Task] = []
         n = len(ops)
 
         async def gate(name: str) -> None:
@@ -148,6 +149,16 @@ def execute(ex: Execution, backend: str, ops: list[Any], initial: dict[str, Any]
                 await store.set_state(S19.Base(**op[1]))
             elif k == "t_set_child":
                 await store.set_state(S19.Child(**op[1]))
+            elif k == "edit_spawn_set":
+                # the block starts a helper task (it inherits the block's context) that later writes on its own
+                async def child(i: int = i, op: Any = op) -> None:
+                    await gate(f"t{i}child")
+                    await store.set(op[2], op[3])
+
+                async with store.edit_state() as st:
+                    st[op[1]] = st.get(op[1], 0) + 1
+                    children.append(loop.create_task(child()))
+                    await gate(f"t{i}")
             elif k == "edit_two":
                 async with store.edit_state() as st:
                     a = st.get(op[1], 0)
@@ -202,8 +213,9 @@ def execute(ex: Execution, backend: str, ops: list[Any], initial: dict[str, Any]
             w["typed_state"] = True
         if cancels:
             w["a_caller_gave_up"] = bool(cancelled)
-        stuck = [i for i, t in tasks.items() if not t.done()]
-        failed = [(i, repr(t.exception())) for i, t in tasks.items() if t.done() and not t.cancelled() and t.exception() is not None]
+        stuck = [i for i, t in tasks.items() if not t.done()] + [f"child{j}" for j, t in enumerate(children) if not t.done()]
+        failed = [(i, repr(t.exception())) for i, t in tasks.items() if t.done() and not t.cancelled() and t.exception() is not None] + \
+                 [(f"child{j}", repr(t.exception())) for j, t in enumerate(children) if t.done() and not t.cancelled() and t.exception() is not None]
         # an operation cancelled while it waited (for the lock / at its gate, i.e. before its write) has no effect;
         # one that had already finished when cancel() came is a completed operation
         effective = [i for i in range(n) if i in tasks and tasks[i].done() and not tasks[i].cancelled()]
@@ -220,10 +232,15 @@ def execute(ex: Execution, backend: str, ops: list[Any], initial: dict[str, Any]
             loop.drain()
             final = json.loads(json.dumps(tr.result()))
             serial = {}
-            for perm in itertools.permutations(effective if cancels else range(n)):
+            # (a block that starts a helper task is two operations: the block itself and the helper's own write)
+            ref_ops: list[Any] = []
+            for o in ops:
+                ref_ops += [("edit_inc", o[1]), ("set", o[2], o[3])] if o[0] == "edit_spawn_set" else [o]
+            idx = effective if cancels else range(len(ref_ops))
+            for perm in itertools.permutations(idx):
                 d = dict(initial)
                 for i in perm:
-                    d = ref_apply(d, ops[i])
+                    d = ref_apply(d, ref_ops[i])
                 serial[json.dumps(d, sort_keys=True)] = perm
             if json.dumps(final, sort_keys=True) not in serial:
                 v.append(("final_state_matches_no_serial_order", w,
@@ -252,6 +269,9 @@ def op_sets(tier: str) -> list[tuple[str, list[Any], dict[str, Any]]]:
         ("put_put_set_state", [("edit_put", "a", 1), ("edit_put", "b", 1), ("set_state", {"x": "from_set_state"})], {"seed": 0}),
         ("inc_clear_set", [inc_x, ("clear",), ("set", "z", 1)], {"x": 5}),
         ("copy_set_set_state", [("edit_copy", "x", "y"), ("set", "x", 7), ("set_state", {"x": 3})], {"x": 0}),
+        # an edit block that starts a helper task; the helper writes later, possibly while another block is open
+        ("spawn_set_inc", [("edit_spawn_set", "x", "count", 10), ("edit_inc", "count")], {"x": 0, "count": 0}),
+        ("spawn_set_copy", [("edit_spawn_set", "x", "y", 5), ("edit_copy", "y", "z")], {"x": 0, "y": 0}),
     ]
     if tier != "quick":
         sets += [
